@@ -134,7 +134,7 @@ theorem render_tokOK (alias : Bool) : (t : PExp) → TextOK t → ∀ tk ∈ ren
     · exact h.1
     · rcases mem_parenToks (xs := renderArgs alias args) htk with rfl | htk | rfl
       · trivial
-      · exact renderArgs_tokOK alias args h.2.2 tk htk
+      · exact renderArgs_tokOK alias args h.2 tk htk
       · trivial
   | .un u e, h => by
     intro tk htk
